@@ -41,18 +41,13 @@ def regenerate():
 
 
 # ---------------------------------------------------------------------------------------------
+_WS_RUN = re.compile(rb"[\t\n\x0b\x0c\r ]+")
+
+
 def ref_split(s):
-    """bytes.split() as the property text describes it: maximal runs of non-whitespace bytes"""
-    out, cur = [], bytearray()
-    for c in s:
-        if c in WS:
-            if cur:
-                out.append(bytes(cur)); cur = bytearray()
-        else:
-            cur.append(c)
-    if cur:
-        out.append(bytes(cur))
-    return out
+    """bytes.split() as the property text describes it: maximal runs of non-whitespace bytes (the six ASCII white-space bytes
+    spelled out; not bytes.split itself)"""
+    return [t for t in _WS_RUN.split(s) if t]
 
 
 def f32(x):
@@ -173,10 +168,28 @@ def parse_arpa(path):
     return grams
 
 
+def long_words(rng):
+    """vocabulary words around every length at which a fixed-size buffer or a bounded scan could cut a word: 254 .. 257 bytes,
+    1000, 4096 +- 1, 65535 .. 65537, 70000; ASCII (URL-like) and UTF-8 whose 2- and 3-byte characters straddle byte 255 / 256"""
+    out = []
+    for k, n in enumerate((254, 255, 256, 257, 1000, 4095, 4096, 4097, 65535, 65536, 65537, 70000)):
+        head = b"http://example.net/%d/" % n
+        fill = bytes([97 + (k + j) % 26 for j in range(7)])
+        out.append((head + fill * (n // 7 + 1))[:n])
+    e2, e3 = "\u00e9".encode("utf-8"), "\u4e16".encode("utf-8")
+    out += [e2 * 127, e2 * 127 + b"z", e2 * 128, b"q" + e2 * 127 + e2, e3 * 85, b"q" + e3 * 85, b"qq" + e3 * 85, e3 * 86,
+            e3 * 21845 + b"k", e2 * (rng.range(120, 140))]
+    seen, res = set(), []
+    for w in out:
+        if w not in seen:
+            seen.add(w); res.append(w)
+    return res
+
+
 def gen_arpa(rng, path):
     """a small valid order-3 model: UTF-8 and punctuation words, probabilities multiples of 1/64"""
     words = [b"<unk>", b"<s>", b"</s>"] + [w.encode("utf-8") for w in
-             ("h\u00e9llo", "\u4e16\u754c", "na\u00efve", "a=b", "x", "y", "42", "\u00a0nbsp", "\u2003em")]
+             ("h\u00e9llo", "\u4e16\u754c", "na\u00efve", "a=b", "x", "y", "42", "\u00a0nbsp", "\u2003em")] + long_words(rng)
     def p():
         return "%.6f" % (-rng.range(1, 255) / 64.0)
     uni = list(words)
@@ -217,12 +230,20 @@ def gen_arpa(rng, path):
 
 def gen_sentences(rng, grams, n_random):
     vocab = [g[0] for g in grams.get(1, [])]
-    body = [w for w in vocab if w not in (b"<s>",)] or [b"x"]
-    w1, w2 = rng.choice(body), rng.choice(body)
+    # words of more than 2000 bytes appear in the fixed sentences only (each costs ~0.1 MB per call on every path)
+    body = [w for w in vocab if w not in (b"<s>",) and len(w) <= 2000] or [b"x"]
+    short = [w for w in body if len(w) <= 64] or body
+    w1, w2 = rng.choice(short), rng.choice(short)
     fixed = [b"", b" ", b"\t\n\x0b\x0c\r ", b"  " + w1, w1 + b"  ", w1, b"<unk>", b"</s>", b"<s>", w1 + b" <s> " + w2,
              w1 + b" </s> " + w2, b"zzzOOVzzz", w1 + b" zzzOOVzzz " + w2, "\u00e9\u4e16 \u00a0 \u2003".encode("utf-8"), b"\xff\xfe " + w1,
              b"\x85 " + w1 + b" \xa0", b"\x1c\x1d\x1e\x1f " + w1,      # str.split() whitespace that bytes.split() keeps
              b"w" * 1000, b" ".join([w1, w2] * 100)]
+    # every long vocabulary word alone, after and before another word (all Python paths look words up one by one)
+    for w in vocab:
+        if len(w) > 2000:
+            fixed += [w1 + b" " + w]
+        elif len(w) > 64:
+            fixed += [w, w1 + b" " + w, w + b"\t" + w2 + b" " + w]
     # every character str.split() / str.isspace() treats as a separator although it is not ASCII white space: for the model
     # (bytes.split() / util::kSpaces on the UTF-8 bytes) these are ordinary word bytes
     for cp in UNICODE_ONLY_SPACES:
@@ -236,6 +257,8 @@ def gen_sentences(rng, grams, n_random):
     fixed += [b"\x00", w1 + b"\x00 " + w2, w1 + b" \x00" + w2, b"\x00 " + w1, w1 + b" " + w2 + b"\x00", w1 + b"\x00" + w2,
               b"looking on\x00 a little"]
     out = list(fixed)
+    grams = {n: [g for g in gs if all(len(t) <= 2000 for t in g)] for n, gs in grams.items()}
+    grams = {n: gs for n, gs in grams.items() if gs}
     orders = sorted(grams)
     for _ in range(n_random):
         toks = []
@@ -525,6 +548,7 @@ def check_model(ctx, label, arpa, model, mtype, sentences, drv, extdir, query, o
             ctx.report("query-tool:failed", err, {"model": label, "arpa": arpa}, found=True)
             q = {}
         qs[ci] = q
+    arpa_text = open(arpa, "rb").read().decode("latin-1") if arpa.startswith(ctx.scratch) else None
     mlines = [model_line(s, chains, i) for i, s in enumerate(sentences)]
     mout = vlib.run_lines(ocaml, mlines) if ocaml else None
     for i, s in enumerate(sentences):
@@ -534,7 +558,7 @@ def check_model(ctx, label, arpa, model, mtype, sentences, drv, extdir, query, o
                 fails += oracle_query(s, chains, i, qs[ci][i], ci == 3)
                 results["query_compared"] += 1
         results["evaluations"] += 4
-        case = {"session": session, "model": label, "arpa": os.path.relpath(arpa, vlib.REPO) if arpa.startswith(vlib.REPO + os.sep) else arpa, "arpa_text": open(arpa, "rb").read().decode("latin-1") if arpa.startswith(ctx.scratch) else None,
+        case = {"session": session, "model": label, "arpa": os.path.relpath(arpa, vlib.REPO) if arpa.startswith(vlib.REPO + os.sep) else arpa, "arpa_text": arpa_text,
                 "sentence_hex": hx(s), "sentence_repr": repr(s)[:200]}
         for sig, what in fails:
             results["spec_fail"] += 0 if sig in (SIG_NUL, SIG_NUL_WORD) else 1
@@ -632,7 +656,7 @@ def run(ctx):
     ctx.coverage["models"] = [m[0] for m in models]
     ctx.coverage["rule"] = ("every model file (lm/test.arpa, lm/test_nounk.arpa, a generated order-3 ARPA with UTF-8 words and dyadic probabilities; as ARPA text "
                             "and as binary of the six types) x sentences (empty, all-whitespace, each ASCII whitespace byte as separator / leading / trailing, "
-                            "OOV, <s> </s> <unk> inside, invalid UTF-8, every non-ASCII str.isspace() character between two words, 1000-byte word, 200 words, NUL at every position class, "
+                            "OOV, vocabulary words of 254..257 / 1000 / 4095..4097 / 65535..65537 / 70000 bytes and UTF-8 words straddling byte 255/256, <s> </s> <unk> inside, invalid UTF-8, every non-ASCII str.isspace() character between two words, 1000-byte word, 200 words, NUL at every position class, "
                             "random joins of the model's own n-grams with random whitespace) x bos/eos in {T,F}^2; all model files are loaded into ONE interpreter in a seed-dependent order and their calls interleaved at random; every valid-UTF-8 sentence is given to score / full_scores / perplexity / `in` both as bytes and as str.  evaluations = sentence x model x combination.  "
                             "Non-trivial: >= 2 tokens, or leading/trailing whitespace, or a NUL byte; distinct = distinct (model, sentence).")
     ctx.coverage["spec_oracle_failures"] = results["spec_fail"]
